@@ -18,6 +18,7 @@ from fiddle._src.experimental import serialization
 from vf import canon as C
 from vf.common import safe_repr, short_hash
 from vf.monitors import sched
+from vt import tags as vtags
 from vt import kinds, rec
 
 ID = 'C19'
@@ -80,8 +81,11 @@ class Env:
   """Objects shared by the threads of ONE run (fresh per run => cold caches)."""
 
   def __init__(self):
-    src = 'def fresh_target(a: int = 1, b: str = "b", *va, k: float = 2.0, **vk):\n  return ("fresh", a, b, va, k, sorted(vk.items()))\n'
-    ns = {}
+    src = ('def fresh_target(a: Annotated[int, TagA] = 1, b: Annotated[str, TagB, TagA1] = "b", *va, '
+           'k: Annotated[float, TagC] = 2.0, **vk):\n  return ("fresh", a, b, va, k, sorted(vk.items()))\n')
+    from typing import Annotated
+    ns = {'Annotated': Annotated, 'TagA': vtags.TagA, 'TagB': vtags.TagB, 'TagA1': vtags.TagA1,
+          'TagC': vtags.TagC}
     exec(src, ns)  # pylint: disable=exec-used
     self.fresh_fn = ns['fresh_target']
     self.exc_cls = type('FreshError', (ValueError,), {})
@@ -168,7 +172,13 @@ def P5(env, label):
     out = fdl.build(cfg)
     p = fdl.Partial(env.fresh_fn, b=label)
     env.histories.append((label, collect_ids(cfg) + collect_ids(p)))
-    return (out, tuple(cfg[:]), sorted(k for k in dir(cfg)), fdl.build(p)(3))
+    # the annotation tags of the shared callable, as each thread's own configurations see them
+    tags = [sorted((str(k), sorted(t.__name__ for t in v)) for k, v in c.__argument_tags__.items() if v)
+            for c in (cfg, p)]
+    tagged = fdl.Config(env.fresh_fn)
+    fdl.set_tagged(tagged, tag=vtags.TagA, value=label)
+    return (out, tuple(cfg[:]), sorted(k for k in dir(cfg)), fdl.build(p)(3), tags,
+            fdl.build(tagged))
   return prog
 
 
